@@ -67,3 +67,7 @@ claim("C07", "DESIGN.md 3/C07",
       "2276 abstract configs from a bounded grammar (1-2 contexts, 1-2 streams, every subset of <=2 entries of an 8-entry test menu incl. unknown test/module, windows, GeoJSON regions; thorough: subsets of <=3) are rendered in every expressible layout (4) and carrier (13: dict, OrderedDict, YAML/JSON text, StringIO, str/Path files, xarray global attribute, per-variable attributes; thorough + NetCDF file) and loaded by the real Config; calls/contexts/Call.config() must equal the call set computed from the abstract config",
       "harness renderings are self-checked for round trip; shapely builds the expected region; parameters that are themselves mappings not generated",
       TECH_TREE)
+claim("C18", "DESIGN.md 3/C18",
+      "fault enumeration: configs with 1-2 healthy tests and every placement of 1-2 (thorough 3) failing entries from 8 fault kinds (unknown module/test, rejected parameters, missing required input, raising function, aggregate entry, absent stream id) - in the same stream in every order, in another stream, in another context with/without a window - on 9 front-end variants, collected as list and dict; the run must complete, failing entries contribute nothing, every healthy result equals the result of the configuration containing only that entry",
+      "differential oracle on the same front end; 4 rows (thorough 3-5); absent stream ids not judged on array-input front ends",
+      "exhaustive enumeration of fault placements (explicit-state, bounded) executing the real stream/config/collector code")
